@@ -93,7 +93,7 @@ func TestVerifC12(t *testing.T) {
 
 	n := r.N(10000, 400000)
 	r.Cases("hist", n, func(i int, id string, rng *vk.Rand) {
-		cfg := vfGenCfg(rng, []string{"set"}, []string{CacheTypeRanked, CacheTypeLRU}, 5)
+		cfg := vfGenCfg(rng, []string{"set", "set", "mutex"}, []string{CacheTypeRanked, CacheTypeLRU}, 5) // mutex fragments: a write to one row changes another row's count
 		rows := all
 		if rng.Chance(1, 3) { // histories whose rows always fit: the unrestricted clause gets asserted often
 			rows = all[:1+rng.Intn(int(cfg.CacheSize))]
